@@ -214,7 +214,8 @@ pub fn gen_frames(rng: &mut Rng, v: (u8, u8), ports: &[PortSpec], n: usize) -> V
             2 => rng.below(4) as u8,
             _ => {
                 if rng.chance(1, 20) {
-                    15
+                    // bursts well beyond anything the fixtures contain (the busiest fixture frame has 7 items)
+                    8 + rng.below(40) as u8
                 } else {
                     rng.below(6) as u8
                 }
